@@ -67,7 +67,7 @@ func (w *c10world) apply(ev string) {
 		a.Hub.RegisterRemoteSKI(b.SKI)
 	case "unregB":
 		w.regB = false
-		a.Hub.UnregisterRemoteSKI(b.SKI)
+		a.Hub.UnregisterRemoteSKI(label(b.SKI))
 		w.unregAt = simrt.Elapsed()
 		w.unregActive = true
 	case "cancelB":
@@ -79,9 +79,9 @@ func (w *c10world) apply(ev string) {
 			}
 		}
 		w.regB = false
-		a.Hub.CancelPairingWithSKI(b.SKI)
+		a.Hub.CancelPairingWithSKI(label(b.SKI))
 	case "discB":
-		a.Hub.DisconnectSKI(b.SKI, "user")
+		a.Hub.DisconnectSKI(label(b.SKI), "user")
 	case "autoOn":
 		w.autoAccept = true
 		a.Hub.SetAutoAccept(true)
@@ -113,7 +113,7 @@ func (w *c10world) apply(ev string) {
 	case "bRegA":
 		b.Hub.RegisterRemoteSKI(a.SKI)
 	case "bCancelA":
-		b.Hub.CancelPairingWithSKI(a.SKI)
+		b.Hub.CancelPairingWithSKI(label(a.SKI))
 	case "wait1":
 		simrt.RunFor(time.Second)
 	case "wait12":
@@ -372,7 +372,7 @@ func raceBody(op, when string, bTrustsA bool, c01 bool) func() {
 			}
 			switch op {
 			case "unregister":
-				a.Hub.UnregisterRemoteSKI(b.SKI)
+				a.Hub.UnregisterRemoteSKI(label(b.SKI))
 			case "cancel":
 				// C10 speaks about cancelling a pending pairing: a handshake that waits for trust (hello pending / ready
 				// listen); a cancel before the connection exists or during other handshake phases is not covered by it
@@ -384,7 +384,7 @@ func raceBody(op, when string, bTrustsA bool, c01 bool) func() {
 						}
 					}
 				}
-				a.Hub.CancelPairingWithSKI(b.SKI)
+				a.Hub.CancelPairingWithSKI(label(b.SKI))
 			case "shutdown":
 				a.Hub.Shutdown()
 			}
@@ -537,4 +537,19 @@ func c10Main(r *hx.Run) {
 		Assumptions: []string{"three complete ship-go nodes over fake network/zeroconf; event-atomic transitions (each user operation, mDNS change or waiting period runs to quiescence under the default schedule)",
 			"time passes only through the wait events (1 s, 12 s) and a 20 ms settle after each operation; histories up to the stated depth from five seed states"},
 		Violations: viol})
+}
+
+// label: the SKI the way users type it from a device label (upper case, groups of four separated by blanks); the
+// operations that withdraw something use this spelling, the registrations the canonical one (C15 says it makes no difference)
+func label(ski string) string {
+	u := strings.ToUpper(ski)
+	var parts []string
+	for i := 0; i < len(u); i += 4 {
+		j := i + 4
+		if j > len(u) {
+			j = len(u)
+		}
+		parts = append(parts, u[i:j])
+	}
+	return strings.Join(parts, " ")
 }
